@@ -6,7 +6,8 @@ Local Open Scope Z_scope.
 Record case_t := Case {
   c_dflt : Z;                  (* bit pattern of -9999 (only used when no fill is defined) *)
   c_file : pfile;
-  c_obs : option nfile         (* what pncopen shows; None = save or open raised *)
+  c_obs : option nfile;        (* what pncopen shows; None = save or open raised *)
+  c_raw : list (option Z * list Z)   (* per variable: _FillValue on disk and the stored cells read with auto-masking off *)
 }.
 
 Definition aval_eqb (a b : aval) : bool := (a_kind a =? a_kind b) && zlist_eqb (a_data a) (a_data b).
@@ -23,9 +24,19 @@ Definition nfile_eqb (a b : nfile) : bool :=
   list_eqb dim_eqb (n_dims a) (n_dims b) && attrs_eqb (n_gattrs a) (n_gattrs b)
   && list_eqb dvar_eqb (n_vars a) (n_vars b).
 
+(* stage 1 against the raw file content: no masking assumption involved *)
+Definition raw_eqb (w : ivar) (o : option Z * list Z) : bool :=
+  option_eqb Z.eqb (i_fill w) (fst o) && zlist_eqb (i_raw w) (snd o).
+Fixpoint raws_eqb (a : list ivar) (b : list (option Z * list Z)) : bool :=
+  match a, b with
+  | [], [] => true
+  | x :: a', y :: b' => raw_eqb x y && raws_eqb a' b'
+  | _, _ => false
+  end.
 Definition checkF (c : case_t) : bool :=
   match c_obs c with
   | Some o => nfile_eqb (impl_save_open (c_dflt c) (c_file c)) o
+              && raws_eqb (im_vars (impl_convert (c_dflt c) (c_file c))) (c_raw c)
   | None => false
   end.
 Definition checkS (c : case_t) : bool :=
